@@ -4,6 +4,7 @@ f=$1; e=$2; shift 2
 cd /repo && cp "$f" /tmp/w/mut.bak && sed -i "$e" "$f" && if git diff --quiet -- "$f"; then echo "NO CHANGE"; exit 3; fi
 git diff -U0 -- "$f" | grep '^[+-]' | grep -v '^+++\|^---'
 cd /verif
+export VERIF_EVIDENCE_DIR=/tmp/w/mut-evidence VERIF_REPLAY_DIR=/tmp/w/mut-replays
 for p in "$@"; do ./check $p | grep -v "^KNOWN" | cut -c1-220; done
 cp /tmp/w/mut.bak /repo/"$f"
 cd /repo && git diff --quiet || echo "WARNING: repo dirty"
